@@ -43,6 +43,8 @@ class World:
         self.p = subprocess.Popen((argv_prefix or []) + [exe], stdin=subprocess.PIPE,
                                   stdout=subprocess.PIPE, stderr=self.errf, env=e, bufsize=0)
         self.cmd_timeout = cmd_timeout
+        self.argv = (argv_prefix or []) + [exe]
+        self.env = e
         self.buf = b""
         self.script = []          # every command sent (the replay file)
         self.last_cmd = None
@@ -54,7 +56,9 @@ class World:
         while b"\n" not in self.buf:
             left = deadline - time.time()
             if left <= 0:
-                raise WorldCrash(self._stderr(), None, self.last_cmd, hang=True)
+                wc = WorldCrash(self._stderr(), None, self.last_cmd, hang=True)
+                wc.replay = (self.argv, self.env, list(self.script), self.cmd_timeout)
+                raise wc
             r, _, _ = select.select([self.p.stdout], [], [], min(left, 5))
             if not r:
                 continue
@@ -349,9 +353,27 @@ class Sim:
 def crash_violation(run, prefix, exc, witness):
     """turn a WorldCrash into a violation on `run`"""
     if exc.hang:
+        # The watchdog is wall-clock time and the machine may be loaded: before a hang is
+        # reported the same script is given to a fresh process with five times the time.  If
+        # that one finishes, the watchdog fired for lack of CPU: counted, no verdict.
+        rp = getattr(exc, "replay", None)
+        if rp:
+            argv, env, script, tmo = rp
+            try:
+                subprocess.run(argv, input=("\n".join(script) + "\n").encode(), env=env,
+                               stdout=subprocess.DEVNULL, stderr=subprocess.DEVNULL,
+                               timeout=max(300, 5 * tmo))
+                run.extra["watchdog_fired_but_replay_finished"] = \
+                    run.extra.get("watchdog_fired_but_replay_finished", 0) + 1
+                return
+            except subprocess.TimeoutExpired:
+                pass
+            except Exception:
+                pass
         sig = "%s/hang" % prefix
-        run.violation(sig, witness, "harness process did not answer %r within the watchdog"
-                      % exc.last_cmd)
+        run.violation(sig, witness, "harness process did not answer %r within the watchdog, and "
+                      "a fresh process given the same script did not finish in five times the "
+                      "time" % exc.last_cmd)
         return
     s = (common.sanitizer_signature(exc.stderr) or common.valgrind_signature(exc.stderr)
          or ("abort-rc%s" % exc.rc))
